@@ -216,11 +216,13 @@ def wfchild(x: Any = None) -> Any:
     return x
 
 
-def wfprog(script: Any, tag: str = "", fail_until: int = 0) -> Any:
-    """Interprets a list of deterministic-workflow operations and logs what it observed."""
+SUB_SCRIPT = [["uuid"], ["random"], ["task", 0], ["uuid"]]
+
+
+def _wf_interp(me: str, script: Any, tag: str, fail_until: int) -> Any:
     from pynenc.exceptions import RetryError
 
-    t = _this_task("wfprog")
+    t = _this_task(me)
     child = _this_task("wfchild")
     inv = t.invocation
     iid = str(inv.invocation_id)
@@ -239,10 +241,24 @@ def wfprog(script: Any, tag: str = "", fail_until: int = 0) -> Any:
         elif op[0] == "task":
             ci = t.wf.execute_task(child, op[1])
             vals.append(("task", op[1], str(ci.invocation_id)))
+        elif op[0] == "sub":
+            # a sub-workflow: a task declared with force_new_workflow=True launched from inside this workflow
+            ci = t.wf.execute_task(_this_task("wfsub"), SUB_SCRIPT, f"{tag}.sub")
+            vals.append(("sub", str(ci.invocation_id)))
         if pause is not None:
             pause()
     with _LOG_LOCK:
-        WF_LOG.append({"wf": str(inv.workflow.workflow_id), "inv": iid, "attempt": attempt, "tag": tag, "values": vals})
+        WF_LOG.append({"wf": str(inv.workflow.workflow_id), "inv": iid, "attempt": attempt, "tag": tag, "values": vals, "task": me})
     if attempt <= fail_until:
         raise RetryError(f"attempt {attempt}")
     return len(vals)
+
+
+def wfsub(script: Any, tag: str = "") -> Any:
+    """The same interpreter, registered with force_new_workflow=True (starts a workflow of its own)."""
+    return _wf_interp("wfsub", script, tag, 0)
+
+
+def wfprog(script: Any, tag: str = "", fail_until: int = 0) -> Any:
+    """Interprets a list of deterministic-workflow operations and logs what it observed."""
+    return _wf_interp("wfprog", script, tag, fail_until)
